@@ -175,12 +175,16 @@ def run_check(modname, tier, seed, argv=()):
     os.makedirs(REPLAY_DIR, exist_ok=True)
     known = load_known(prop)
     budget = getattr(mod, "BUDGET_S", {"quick": 240, "thorough": 1500})[tier]
-    hard = t0 + budget * 2.5
+    # per-instance deadline: generous (slow / busy machines), the soft budget only gates `ext`
+    hard = t0 + max(budget * 2.5, 900)
     insts = mod.instances(tier, seed)
     opts = dict(seed=seed, deadline=hard, profile=True,
                 p_validate=getattr(mod, "P_VALIDATE", {"quick": 0.02, "thorough": 0.01})[tier],
                 max_paths=getattr(mod, "MAX_PATHS", 300000))
-    jobs = [(i, g, inst, opts) for i, (g, inst) in enumerate(insts)]
+    # `ext` instances must not outlive the soft budget by much: they get a short deadline and
+    # are reported as incomplete (never as passed) when they hit it
+    ext_opts = dict(opts, deadline=t0 + budget * 1.25 + 10)
+    jobs = [(i, g, inst, opts if g == "core" else ext_opts) for i, (g, inst) in enumerate(insts)]
     nproc = int(os.environ.get("VERIF_JOBS", "0")) or min(16, os.cpu_count() or 4)
     results = []
     skipped = []
